@@ -144,6 +144,42 @@ CHECKS.update({
              "are compared structurally."),
 })
 
+CHECKS.update({
+    "C16": dict(
+        text="~1500 grammar terms with 1..4 objects (single tensors, traces, "
+             "outer products, disconnected groups, hyper-contractions, powers, "
+             "deltas, spin labels) x every ordering of the target indices x 5 "
+             "limit settings x optimised/unoptimised are passed to the real "
+             "optimize_contractions / unoptimized_contraction; the returned "
+             "scheme is interpreted step by step on formal value tables: each "
+             "object used exactly exponent times, each intermediate once, "
+             "each contracted index summed once, last step = the term in the "
+             "requested axis order, limits obeyed, scaling recounted, maximal "
+             "scaling <= single simultaneous contraction.",
+        design="4 C16",
+        note="Trusted: reference interpreter (contract()). Bounded: <=4 "
+             "objects, shapes of the lists in c16.py. RuntimeError under a "
+             "limit = refusal; result-shaped intermediates are exempt from "
+             "max_itmd_dim as documented."),
+    "C17": dict(
+        text="The C16 terms x 10 prefactors (integers, rationals, sqrt, "
+             "symbols) x target orders, sums T + chi*P(T) over subsets of the "
+             "target permutation group x ',' splits x bra-ket symmetry x "
+             "(anti)symmetric result, both backends, optimised and "
+             "unoptimised: the emitted text is parsed and executed by an "
+             "independent interpreter (vmc/codeinterp.py: einsum incl. "
+             "nesting and scalar factors, contract / dot_product / outer "
+             "product with labelled tensors, both prefactor syntaxes, "
+             "'Apply (1 +- P..)' headers) on formal tensor values and "
+             "compared with the expression's value table in the requested "
+             "axis order; refusals must be NotImplementedError and never on "
+             "the supported core.",
+        design="4 C17",
+        note="Trusted: vmc/codeinterp.py and the re-typed name tables. "
+             "Bounded: single-letter index names without spin, <=4 objects "
+             "per term, <=3 terms per expression."),
+})
+
 NOT_YET = {}
 
 
